@@ -526,12 +526,12 @@ def _lines(it, name):
     if getattr(it.target, 'preprocessed', False):
         # a longer text goes in; the caller's preprocess function turns it into the lines of this view's shape
         # (an arbitrary function of the text: its results are fresh lines)
-        k = it.target.shape[0 if name == 'actual' else 1]
+        k = it.target.shape[0 if 'actual' in name else 1]
         raw = [it.fresh_str('raw_%s%d' % (name, i)) for i in range(k + 1)]
         it.ghost.setdefault('preprocessed', []).append((raw, [it.fresh_str('preprocessed_%s%d' % (name, i))
                                                                 for i in range(k)]))
         return raw
-    k = it.target.shape[0 if name == 'actual' else 1]
+    k = it.target.shape[0 if 'actual' in name else 1]
     return [it.fresh_str('%s%d' % (name, i)) for i in range(k)]
 
 
@@ -672,15 +672,30 @@ def _cs_entry(it, senv):
                                                                 '__open__': False}))
 
 
+@specfn
+def line_numbers_of(it, numbers, lines):
+    if not isinstance(numbers, (set, frozenset, list)) or not isinstance(lines, list):
+        raise Unsupported('line_numbers_of: a concrete set of line numbers and a concrete-length text expected')
+    return all(isinstance(i, int) and 0 <= i < len(lines) for i in numbers)
+
+
 class _CheckStrings(Contract):
     def verify(self, registry=None, quick=False):
         reg = _with_compile_patterns(dict(REGISTRY if registry is None else registry))
-        reg[CF + 'FilesComparison.reconstruct'] = Contract(
-            CF + 'FilesComparison.reconstruct', params={}, effects=lambda it, env: _recon(it, 'reconstruction'),
-            result=T.none, assumed=True, name='reconstruct', spec_env=ENV,
-            trusted_note='reconstruct builds the annotated listing for the failure report; it does not change its '
-                         'arguments')
-        reg[CF + 'FilesComparison.reconstruct'].varargs_ok = True
+        rc = Contract(
+            CF + 'FilesComparison.reconstruct',
+            params=OrderedDict([('original_actual', None), ('original_expected', None), ('actual_removals', None),
+                                ('expected_removals', None), ('actual_ignored', None), ('expected_ignored', None),
+                                ('format', None)]),
+            requires=[('removal-sets-hold-line-numbers-of-their-text',
+                       'line_numbers_of(actual_removals, original_actual) and '
+                       'line_numbers_of(expected_removals, original_expected)')],
+            effects=lambda it, env: _recon(it, 'reconstruction'), result=T.none, name='reconstruct',
+            spec_env=dict(ENV, line_numbers_of=line_numbers_of),
+            trusted_note='verified separately (per-shape views of reconstruct); here its precondition is discharged '
+                         'and its result is an opaque listing')
+        rc.defaults = {'format': None}
+        reg[CF + 'FilesComparison.reconstruct'] = rc
         af = Contract(CF + 'FilesComparison.add_failures', params={},
                       effects=lambda it, env: it.ghost.__setitem__('add_failures', True), result=T.none, assumed=True,
                       name='add_failures(report)', spec_env=ENV,
@@ -742,3 +757,114 @@ for _la in range(_cs_max_lines() + 1):
         _cs_contract(_la, _le)
         if _thorough() or (_la, _le) in ((1, 1), (2, 1), (0, 1)):
             _cs_contract(_la, _le, preprocessed=True)
+
+
+# ---------------------------------------------------------------------------
+# reconstruct (C15): the post-processed pair differs exactly on the unexcused lines.
+# Texts of a fixed shape (one view per shape, up to N x N lines), symbolic contents, the removal and ignored
+# sets abstract (uninterpreted membership).  Lines that survive removal are aligned by position; when both
+# sides keep the same number of lines, the two rebuilt texts have the same length, they differ at exactly as many
+# positions as there are kept pairs that differ and are not ignored, and each such pair appears in them.
+# ---------------------------------------------------------------------------
+
+def _rc_entry(it, senv):
+    def intset(name):
+        member = z3.Function('in_' + name, z3.IntSort(), z3.BoolSort())
+        o = SObj('set', {'__contains__': (lambda x: SBool(member(x.z if isinstance(x, SInt) else z3.IntVal(int(x))))),
+                         '__open__': False}, label=name)
+        o.attrs['member'] = member
+        return o
+    for n in ('actual_removals', 'expected_removals', 'actual_ignored', 'expected_ignored'):
+        senv[n] = intset(n)
+    # precondition (discharged at the call site in check_strings): the removal sets hold line numbers of their text
+    q = z3.Int('line!q')
+    for n, lines in (('actual_removals', senv['original_actual']), ('expected_removals', senv['original_expected'])):
+        it.path.assume(z3.ForAll([q], z3.Implies(senv[n].attrs['member'](q), z3.And(q >= 0, q < len(lines)))))
+    it.spec_env['Reconstruction'] = Builtin(lambda it2, a, e: SObj('Reconstruction', {'diff_actual': a, 'diff_expected': e,
+                                                                                     '__open__': False}))
+
+
+_MARK = z3.Function('diff_marker', StrS, StrS, StrS)
+_FMT = z3.Function('format_marker', StrS, StrS)
+
+
+class _Reconstruct(Contract):
+    def verify(self, registry=None, quick=False):
+        reg = dict(REGISTRY if registry is None else registry)
+        reg[CF + 'FilesComparison.diff_marker'] = Contract(
+            CF + 'FilesComparison.diff_marker', params=dict(left=None, right=None),
+            effects=lambda it, env: SStr(_MARK(strz(it, env['left']), strz(it, env['right']))), result=T.none,
+            assumed=True, name='diff_marker', spec_env=ENV,
+            trusted_note='diff_marker(left, right) is a text determined by the two lines (a function)')
+        reg[CF + 'FilesComparison.format_marker'] = Contract(
+            CF + 'FilesComparison.format_marker', params=dict(marker=None, format=None),
+            effects=lambda it, env: SStr(_FMT(strz(it, env['marker']))), result=T.none, assumed=True,
+            name='format_marker', spec_env=ENV,
+            trusted_note='format_marker(marker, format) is a text determined by the marker (a function)')
+        return Contract.verify(self, reg, quick)
+
+
+@specfn
+def rebuilt_pair_differs_exactly_on_unexcused_lines(it, result, original_actual, original_expected,
+                                                    actual_removals, expected_removals, actual_ignored,
+                                                    expected_ignored):
+    A, E = list(original_actual), list(original_expected)
+    ra, re_ = result.attrs['diff_actual'], result.attrs['diff_expected']
+    if not (isinstance(ra, list) and isinstance(re_, list)):
+        return False
+    mem = {n: s.attrs['member'] for n, s in (('ar', actual_removals), ('er', expected_removals),
+                                             ('ai', actual_ignored), ('ei', expected_ignored))}
+
+    def differs(x, y):
+        return z3.BoolVal(False) if x is y else strz(it, x) != strz(it, y)
+    out_diff = [differs(x, y) for x, y in zip(ra, re_)]
+    n_out = z3.Sum([z3.If(d, 1, 0) for d in out_diff]) if out_diff else z3.IntVal(0)
+    clauses = []
+    for ma in _it.product((False, True), repeat=len(A)):
+        for me in _it.product((False, True), repeat=len(E)):
+            ka = [i for i in range(len(A)) if not ma[i]]
+            ke = [j for j in range(len(E)) if not me[j]]
+            if len(ka) != len(ke):
+                continue          # different line counts after removal: not the subject of this clause
+            cfg = z3.And(*([mem['ar'](i) if ma[i] else z3.Not(mem['ar'](i)) for i in range(len(A))]
+                           + [mem['er'](j) if me[j] else z3.Not(mem['er'](j)) for j in range(len(E))]))
+            unexc = [z3.And(strz(it, A[i]) != strz(it, E[j]), z3.Not(z3.Or(mem['ai'](i), mem['ei'](j))))
+                     for i, j in zip(ka, ke)]
+            n_un = z3.Sum([z3.If(u, 1, 0) for u in unexc]) if unexc else z3.IntVal(0)
+            body = [z3.BoolVal(len(ra) == len(re_)), n_out == n_un]
+            for (i, j), u in zip(zip(ka, ke), unexc):
+                # the unexcused pair shows in the rebuilt texts, side by side
+                shows = [z3.And(strz(it, x) == strz(it, A[i]), strz(it, y) == strz(it, E[j])) for x, y in zip(ra, re_)]
+                body.append(z3.Implies(u, z3.Or(*shows) if shows else z3.BoolVal(False)))
+            # the caller marks an excused pair on both sides (wrong_content adds both line numbers)
+            sym = z3.And(*[mem['ai'](i) == mem['ei'](j) for i, j in zip(ka, ke)]) if ka else z3.BoolVal(True)
+            clauses.append(z3.Implies(z3.And(cfg, sym), z3.And(*body)))
+    return SBool(z3.And(*clauses)) if clauses else True
+
+
+def _rc_contract(la, le):
+    c = _Reconstruct(
+        CF + 'FilesComparison.reconstruct', props=['C15'], name='reconstruct[%dx%d]' % (la, le),
+        params=OrderedDict([('original_actual', T.custom(_lines)), ('original_expected', T.custom(_lines)),
+                            ('actual_removals', None), ('expected_removals', None), ('actual_ignored', None),
+                            ('expected_ignored', None), ('format', T.const(None))]),
+        self_view=_perm_view, on_entry=_rc_entry,
+        spec_env=dict(ENV, rebuilt_pair_differs_exactly_on_unexcused_lines=rebuilt_pair_differs_exactly_on_unexcused_lines),
+        ensures=[('the-rebuilt-pair-differs-exactly-on-the-unexcused-lines',
+                  'rebuilt_pair_differs_exactly_on_unexcused_lines(result, original_actual, original_expected, '
+                  'actual_removals, expected_removals, actual_ignored, expected_ignored)')],
+        max_paths=400000)
+    c.shape = (la, le)
+    c.preprocessed = False
+    c.max_unroll = 2 * (la + le) + 2
+    c.abstraction = ('texts of exactly %d and %d lines with symbolic contents; removal and ignored sets are '
+                     'uninterpreted membership predicates; diff_marker / format_marker are assumed to be functions '
+                     'of their arguments; the clause speaks about removals that leave both sides the same number '
+                     'of lines' % (la, le))
+    REGISTRY[c.ident + '#%dx%d' % (la, le)] = c
+    return c
+
+
+for _la in range(_cs_max_lines() + 1):
+    for _le in range(_cs_max_lines() + 1):
+        _rc_contract(_la, _le)
